@@ -37,3 +37,10 @@ func (r *VerifRing) View() (head, size, maxSize, capacity int, start int64, entr
 func VerifMapShardIDUnique(sourceShardCount, targetShardCount, sourceShardID int32) int32 {
 	return mapShardIDUnique(sourceShardCount, targetShardCount, sourceShardID)
 }
+
+// VerifLen returns the current length of the observer's counter slice.
+func (s *ReplicationStreamObserver) VerifLen() int {
+	s.streamGrowLock.Lock()
+	defer s.streamGrowLock.Unlock()
+	return len(s.streamActive)
+}
